@@ -466,6 +466,12 @@ func encryptFrags(log *slog.Logger, cfg *ResponseConfig, drmCfg *drm.DrmConfig,
 	var key, kid, iv []byte
 	var scheme string
 	ed := rp.encData
+	if ed == nil {
+		if rp.ContentType == "video" || rp.ContentType == "audio" {
+			return fmt.Errorf("representation %s cannot be encrypted", rp.ID)
+		}
+		return nil // subtitle tracks are served in the clear, as their init segments are
+	}
 	switch cfg.DRM {
 	case "eccp-cenc", "eccp-cbcs":
 		scheme = strings.TrimPrefix(cfg.DRM, "eccp-")
